@@ -165,7 +165,10 @@ def _forward(ctx):
             grid = {prefix: PREFIXES + ('10.0.0.0/8', '1.2.3.4', 'garbage',
                                         '2001:db8::/129', '',
                                         '2001:db8::/ 64', '2001:db8::/64\n',
-                                        '2001:db8::/+64', '2001:db8::/'),
+                                        '2001:db8::/+64', '2001:db8::/',
+                                        '2001:db8::/\u0666\u0664',
+                                        '2001:db8::/\uff16\uff14',
+                                        '2001:db8::/6\u0664'),
                     mac: MACS + ('garbage', '00:16:3e:33:44',
                                  '00-16-3E-33-44-55', '0016.3e33.4455',
                                  '00163e334455', 'FA:16:3E:33:44:55')}
@@ -350,7 +353,9 @@ def _params(ctx):
     rep.analysed('netutils._ModifiedSplitResult.params')
     queries = ('', 'a=1', 'a=1&b=2', 'a=1&b=2&a=3', 'a=1&a=2&a=3', 'a=&b',
                'x=1&y=2&x=3&y=4&x=5', 'a=1&a=2&b=3&a=4', 'a=2&a=1',
-               'b=9&a=3&b=1&a=2', 'z=1&a=2', 'a=b&a=B&a=a', 'k=&k=v&k=')
+               'b=9&a=3&b=1&a=2', 'z=1&a=2', 'a=b&a=B&a=a', 'k=&k=v&k=',
+               'sort=name;desc&sort=age;asc', 'v=1;v=2&v=3', 'a=1;b=2',
+               'a=%3B&b=%26&a=+', 'a=1&&b=2', '&a=1', 'a', 'a=1=2')
     for q in queries:
         for collapse in (True, False):
             def thunk(interp):
